@@ -8,8 +8,8 @@
 #   DIR/model0.txt  model observations in the model's own order (no schedule)     -> orderdep.txt (informative:
 #                   the cases whose observables depend on the iteration order of hash maps)
 SEED=${1:-1}; COUNT=${2:-200}; DIR=${3:-/tmp/egr_$SEED}
-H=/root/scratch/agF/harness/target/release/verif-harness
-D=/root/scratch/agF/ocaml/driver
+H=/verif/harness/target/release/verif-harness
+D=/verif/ocaml/driver
 mkdir -p "$DIR"; rm -f "$DIR/mismatch.txt" "$DIR/orderdep.txt"
 $H egr gen --seed "$SEED" --count "$COUNT" --out "$DIR" 2>/dev/null || exit 2
 mv "$DIR/cases.txt" "$DIR/gen.txt"
